@@ -1,16 +1,579 @@
 /-
-  Refinement with loops, part 4: `Analysis.forFinish` (counted loops).  PLACEHOLDER
+  Refinement with loops, part 4: `Analysis.forFinish` (counted loops).
+
+  * `forFinish_inv`   : what the handler computes,
+  * `zcomp_den`       : composing the 1×1 zero relation of the guard `X` in front zeroes row `X`,
+  * `forBody_col_oi`  : column `X` of that relation holds `o`/`∞`-monomials only (off the diagonal),
+  * `for_rel`         : meaning of the fixpoint and of `loop_correction` at every choice vector,
+  * `for_point`       : rule L pointwise,
+  * `refG_for`        : the invariant for `.loop X b`.
 -/
 import Mwp.Lemmas.RefineLoopsInv
+import Mwp.Lemmas.RefineLoopsCorr
+import Mwp.Lemmas.RefineLoopsSyn
 namespace Mwp
 namespace Refine
 open Mwp.Props.C16 Mwp.Lemmas.Poly Spec RelFix
+
+/-! ## the zero relation of the guard variable -/
+
+def zrel (X : String) : Relation := ⟨[X], [[Poly.zero]]⟩
+
+theorem new_single (X : String) (hX : X ≠ "") : Relation.new [X] = zrel X := by
+  unfold Relation.new
+  simp only [filter_nonempty_eq [X] (by simpa using hX)]
+  rfl
+
+theorem zrel_wf (X : String) (hX : X ≠ "") : (zrel X).WF := by
+  refine ⟨by simp [zrel], by simpa [zrel] using hX, rfl, by simp [zrel], ?_⟩
+  intro row hr p hp
+  simp only [zrel, List.mem_singleton] at hr; subst hr
+  simp only [List.mem_singleton] at hp; subst hp
+  rfl
+
+theorem zrel_den (X : String) (c : Choice) (u v : String) :
+    (zrel X).den c u v = if u = X then .o else idS u v := by
+  by_cases hu : u = X
+  · rw [if_pos hu]
+    by_cases hv : v = X
+    · rw [hu, hv]
+      have h0 : List.idxOf? X [X] = some 0 := by simp [List.idxOf?_cons]
+      rw [Relation.den_of_idx (r := zrel X) h0 h0]
+      exact evalD_zero c
+    · rw [Relation.den_of_not_mem_right (r := zrel X) (by simpa [zrel] using hv) c u, hu]
+      exact idS_of_ne (fun e => hv e.symm)
+  · rw [if_neg hu]
+    exact Relation.den_of_not_mem_left (r := zrel X) (by simpa [zrel] using hu) c v
+
+theorem zrel_fin (X : String) (c : Choice) : Fin' (zrel X) c := by
+  intro a b
+  rw [zrel_den]
+  split
+  · decide
+  · exact idS_ne_i a b
+
+section zcomp
+variable {X : String} {r : Relation} (hX : X ≠ "") (wr : r.WF) (hfresh : X ∉ r.vars)
+include hX wr
+
+theorem zcomp_wf : (Relation.composition (zrel X) r).WF :=
+  Relation.composition_wf _ r (zrel_wf X hX) wr
+
+theorem zcomp_mem (v : String) : v ∈ (Relation.composition (zrel X) r).vars ↔ v = X ∨ v ∈ r.vars := by
+  rw [Relation.composition_vars_mem _ r (zrel_wf X hX) wr]
+  simp [zrel]
+
+include hfresh in
+/-- row `X` zeroed, everything else as in `r` -/
+theorem zcomp_den {c : Choice} (fr : Fin' r c) (a b : String) :
+    (Relation.composition (zrel X) r).den c a b = if a = X then .o else r.den c a b := by
+  have hmem := zcomp_mem hX wr
+  rw [Relation.composition_den_own _ r (zrel_wf X hX) wr]
+  by_cases hab : a ∈ (Relation.composition (zrel X) r).vars ∧ b ∈ (Relation.composition (zrel X) r).vars
+  · rw [if_pos hab]
+    by_cases haX : a = X
+    · rw [if_pos haX]
+      apply sumScalars_map_o
+      intro k _
+      rw [zrel_den, if_pos haX]
+      exact o_mul_of_ne_i (fr k b)
+    · rw [if_neg haX]
+      have e1 : ∀ k ∈ (Relation.composition (zrel X) r).vars,
+          (zrel X).den c a k * r.den c k b = idS a k * r.den c k b := by
+        intro k _; rw [zrel_den, if_neg haX]
+      rw [sumScalars_map_congr _ _ _ e1, sum_idS_left hab.1 (fun k => r.den c k b) (fun k => fr k b)]
+  · rw [if_neg hab]
+    by_cases haX : a = X
+    · rw [if_pos haX]
+      have hb : b ∉ (Relation.composition (zrel X) r).vars :=
+        fun hb => hab ⟨(hmem a).2 (Or.inl haX), hb⟩
+      have : b ≠ X := fun e => hb ((hmem b).2 (Or.inl e))
+      subst haX
+      rw [if_neg (fun e => this e.symm)]
+    · rw [if_neg haX]
+      have : ¬ (a ∈ r.vars ∧ b ∈ r.vars) :=
+        fun h => hab ⟨(hmem a).2 (Or.inr h.1), (hmem b).2 (Or.inr h.2)⟩
+      rw [den_outside c this]
+      rfl
+
+end zcomp
+
+/-! ## column `X` of the iterated relation, syntactically -/
+
+theorem composition_eq (a b : Relation) (ha : a.WF) (hb : b.WF) :
+    Relation.composition a b = ⟨(Relation.homogenisation a b).1.vars,
+      Matrix.prod (Relation.homogenisation a b).1.mat (Relation.homogenisation a b).2.mat⟩ := by
+  have H := Relation.homogenisation_spec a b ha hb
+  unfold Relation.composition
+  exact Relation.new_some_eq _ _ H.wf1.2.1 (by rw [Matrix.prod_length]; exact H.wf1.2.2.1)
+
+theorem get_tab (n : Nat) (f : Nat → Nat → Poly) (i j : Nat) :
+    Matrix.get (Matrix.tab n f) i j = if i < n ∧ j < n then f i j else Poly.zero :=
+  get_tab2 n n f i j
+
+theorem forBody_col_oi {X : String} {r : Relation} (hX : X ≠ "") (wr : r.WF) (hfresh : X ∉ r.vars) :
+    (Relation.composition (zrel X) r).vars.idxOf X = 0 ∧
+    ColOI 0 (Relation.composition (zrel X) r).mat := by
+  rw [composition_eq _ r (zrel_wf X hX) wr]
+  simp only
+  have hne : ((zrel X).vars == r.vars) = false := by
+    apply Bool.eq_false_iff.2
+    intro h
+    have : (zrel X).vars = r.vars := by simpa using h
+    apply hfresh
+    rw [← this]; simp [zrel]
+  have hze : (zrel X).isEmpty = false := by simp [zrel, Relation.isEmpty]
+  have hz0 : ColOI 0 (zrel X).mat := by
+    intro i hi
+    have : Matrix.get (zrel X).mat i 0 = Poly.zero := by
+      apply get_out_of_range (n := 1) (wf_sq (zrel_wf X hX))
+      intro h
+      exact hi (by have := h.1; omega)
+    rw [this]; exact OI_zero
+  by_cases hre : r.isEmpty = true
+  · have : Relation.homogenisation (zrel X) r = (zrel X, Relation.identity (zrel X).vars) := by
+      unfold Relation.homogenisation
+      rw [hne, hze, hre]
+      simp
+    rw [this]
+    simp only
+    refine ⟨by simp [zrel], ColOI_prod hz0 ?_⟩
+    rw [Relation.identity_eq _ (zrel_wf X hX).2.1]
+    exact ColOI_identity 0 _
+  · have hre' : r.isEmpty = false := by simpa using hre
+    rw [Relation.homogenisation_general (zrel X) r hne hze hre']
+    have hnd := Relation.extVars_nodup (zrel X) r (zrel_wf X hX).1 wr.1
+    have hnee := Relation.extVars_ne (zrel X) r (zrel_wf X hX).2.1 wr.2.1
+    simp only
+    rw [Relation.new_some_eq _ _ hnee (Matrix.tab_length _ _),
+      Relation.new_some_eq _ _ hnee (Matrix.tab_length _ _)]
+    simp only
+    have hext : Relation.extVars (zrel X) r = X :: r.vars.filter (fun v => !(zrel X).vars.contains v) := rfl
+    refine ⟨by rw [hext]; simp, ColOI_prod ?_ ?_⟩
+    · intro i hi
+      rw [get_tab]
+      split
+      · unfold Relation.ext1Cell
+        have hlen : (zrel X).mat.length = 1 := rfl
+        rw [hlen]
+        have : (decide (i < min (Relation.extVars (zrel X) r).length 1)) = false := by
+          apply decide_eq_false
+          have : min (Relation.extVars (zrel X) r).length 1 ≤ 1 := Nat.min_le_right _ _
+          omega
+        rw [this]
+        simp only [Bool.false_and, Bool.false_eq_true, if_false]
+        rw [if_neg (by simpa using hi)]
+        exact OI_zero
+      · exact OI_zero
+    · intro i hi
+      rw [get_tab]
+      split
+      · unfold Relation.ext2Cell
+        have h0 : (Relation.extVars (zrel X) r).getD 0 "" = X := by rw [hext]; rfl
+        rw [h0, List.idxOf?_eq_none_iff.2 hfresh]
+        split
+        · rename_i h; cases h
+        · rw [if_neg (by simpa using hi)]
+          exact OI_zero
+      · exact OI_zero
+
+/-! ## the handler -/
+
+theorem forFinish_inv {q : Bool} {X : String} {rb out : Analysis.Out} {r : Relation}
+    (h : Analysis.forFinish q X rb = .ok out) (he : rb.exit = false) (hr : rb.rels = [r]) :
+    ∃ f r' g g', Relation.fixpoint (Relation.composition (Relation.new [X]) r) = .ok f ∧
+      Relation.loopCorrection f X g = .ok (r', g') ∧ out.rels = [r'] ∧ out.index = rb.index ∧
+      ((q = true ∧ out.exit = false ∧ out.dg = rb.dg) ∨
+       (q = false ∧ g = rb.dg ∧ DG.fusion g' = .ok out.dg ∧ out.exit = DG.isEmpty out.dg)) := by
+  unfold Analysis.forFinish at h
+  rw [he, hr] at h
+  simp only [Bool.false_eq_true, if_false, RelList.ofVars, relList_composition_single,
+    RelList.fixpoint, List.mapM_cons, List.mapM_nil, RelList.loopCorrection] at h
+  cases hfx : ((Relation.new [X]).composition r).fixpoint with
+  | error e => rw [hfx] at h; cases h
+  | ok f =>
+    rw [hfx] at h
+    simp only [bind, Except.bind, pure, Except.pure, List.foldlM_cons, List.foldlM_nil] at h
+    cases q with
+    | true =>
+      simp only [if_true] at h
+      cases hw : f.loopCorrection X [] with
+      | error e => rw [hw] at h; cases h
+      | ok p =>
+        rw [hw] at h
+        simp only at h
+        cases h
+        exact ⟨f, p.1, [], p.2, rfl, hw, rfl, rfl, Or.inl ⟨rfl, rfl, rfl⟩⟩
+    | false =>
+      simp only [Bool.false_eq_true, if_false] at h
+      cases hw : f.loopCorrection X rb.dg with
+      | error e => rw [hw] at h; cases h
+      | ok p =>
+        rw [hw] at h
+        simp only at h
+        cases hfu : DG.fusion p.2 with
+        | error e => rw [hfu] at h; cases h
+        | ok d =>
+          rw [hfu] at h
+          cases h
+          exact ⟨f, p.1, rb.dg, p.2, rfl, hw, rfl, rfl, Or.inr ⟨rfl, rfl, hfu, rfl⟩⟩
+
+theorem forFinish_exit {q : Bool} {X : String} {rb out : Analysis.Out}
+    (h : Analysis.forFinish q X rb = .ok out) (he : rb.exit = true) : out = rb := by
+  unfold Analysis.forFinish at h
+  rw [he] at h
+  simp only [if_true] at h
+  cases h
+  rfl
+
+/-! ## meaning of the fixpoint and of the corrected relation -/
+
+theorem idxOf_eq_of_idx {l : List String} (hl : l.Nodup) {x : String} {i : Nat}
+    (h : l.idxOf? x = some i) : l.idxOf x = i := by
+  have hx := idx_mem h
+  have h1 : l.idxOf x < l.length := List.idxOf_lt_length_of_mem hx
+  have e1 : l[l.idxOf x] = x := List.getElem_idxOf h1
+  have e2 := idx_get h
+  exact (List.getElem_inj (h₀ := h1) (h₁ := idx_lt h) hl).1 (e1.trans e2.symm)
+
+theorem evalD_eq_o_of_eval?_none {p : Poly} {c : Choice} (h : p.eval? c = none) : p.evalD c = .o :=
+  eval?_none_evalD h
+
+theorem for_rel {r f r' : Relation} {g g' : DG.Graph} {X : String} (wr : r.WF) (hX : X ≠ "")
+    (hfresh : X ∉ r.vars)
+    (hf : Relation.fixpoint (Relation.composition (Relation.new [X]) r) = .ok f)
+    (hl : Relation.loopCorrection f X g = .ok (r', g')) :
+    r'.WF ∧ (∀ v, v ∈ r'.vars ↔ v = X ∨ v ∈ r.vars) ∧ r'.vars = f.vars ∧ f.WF ∧
+    ∀ c, (HasInf r c → HasInf r' c) ∧
+      (Fin' r c → Fin' f c ∧
+        (∀ U : List String, U.Nodup → X ∈ U → (∀ v ∈ r.vars, v ∈ U) →
+          SMat.closure (matOf U (r.den c)) = matOf U (f.den c)) ∧
+        ((∃ x ∈ f.vars, f.den c x x ≠ .m) → HasInf r' c) ∧
+        ((∀ x ∈ f.vars, f.den c x x = .m) → ∀ x y, r'.den c x y =
+          if x = X ∧ ∃ z ∈ f.vars, f.den c z y = .p then f.den c x y + .p else f.den c x y)) := by
+  rw [new_single X hX] at hf
+  have w1 := zcomp_wf hX wr
+  have hmem1 := zcomp_mem hX wr
+  obtain ⟨fv, fw, fden⟩ := fixpoint_den w1 hf
+  have hXf : X ∈ f.vars := by rw [fv]; exact (hmem1 X).2 (Or.inl rfl)
+  obtain ⟨hell0, hcol0⟩ := forBody_col_oi hX wr hfresh
+  have hell : f.vars.idxOf X = 0 := by rw [fv]; exact hell0
+  have hcanon := fixpoint_cells_nza _ f w1 hf
+  have hcolf := fixpoint_col_oi _ f w1 0 hcol0 hf
+  have hcol : ∀ i, i ≠ f.vars.idxOf X → ∀ m ∈ Matrix.get f.mat i (f.vars.idxOf X), m.scalar ≠ .p := by
+    rw [hell]
+    intro i hi
+    exact OI_ne_p (hcolf i hi)
+  obtain ⟨e', w', _, _⟩ := Relation.loopCorrection_cells_scoped' f r' g g' X fw hXf hcanon hcol hl []
+  refine ⟨w', fun v => by rw [e', fv]; exact hmem1 v, e', fw, fun c => ?_⟩
+  obtain ⟨_, _, C1, C2⟩ := Relation.loopCorrection_cells_scoped' f r' g g' X fw hXf hcanon hcol hl c
+  -- cells of `f` and `r'` as `den`
+  have hcellf : ∀ {x y : String} {i j : Nat}, f.vars.idxOf? x = some i → f.vars.idxOf? y = some j →
+      (Matrix.get f.mat i j).evalD c = f.den c x y := fun hx hy => (Relation.den_of_idx hx hy c).symm
+  constructor
+  · intro hinf
+    obtain ⟨a, b, hab⟩ := Relation.composition_infty_persists _ r (zrel_wf X hX) wr c (Or.inr hinf)
+    have hm := Relation.mem_of_den_i hab
+    apply cell_inf_hasInf w'
+    apply C1
+    right
+    rcases idx_cases f.vars a with ⟨h, _⟩ | ⟨_, i, _, hai, _⟩
+    · exact absurd (fv ▸ hm.1) h
+    rcases idx_cases f.vars b with ⟨h, _⟩ | ⟨_, j, _, hbj, _⟩
+    · exact absurd (fv ▸ hm.2) h
+    refine ⟨i, j, ?_⟩
+    rw [hcellf hai hbj, fden, closure_inf hm.1 hm.2 hab, den_matOf _ _ hm.1 hm.2]
+  · intro fr
+    have hg1 : ∀ a b, (Relation.composition (zrel X) r).den c a b = if a = X then .o else r.den c a b :=
+      zcomp_den hX wr hfresh fr
+    have hrow : ∀ y, r.den c X y = idS X y := fun y => Relation.den_of_not_mem_left hfresh c y
+    have hcolX : ∀ y, r.den c y X = idS y X := fun y => Relation.den_of_not_mem_right hfresh c y
+    have hXL : X ∈ (Relation.composition (zrel X) r).vars := (hmem1 X).2 (Or.inl rfl)
+    have hcl : SMat.closure (matOf (Relation.composition (zrel X) r).vars
+          ((Relation.composition (zrel X) r).den c))
+        = SMat.closure (matOf (Relation.composition (zrel X) r).vars (r.den c)) :=
+      closure_zero_row w1.1 hXL fr hrow hcolX hg1
+    have fden' : ∀ x y, f.den c x y = SMat.den (Relation.composition (zrel X) r).vars
+        (SMat.closure (matOf (Relation.composition (zrel X) r).vars (r.den c))) x y := by
+      intro x y; rw [fden, hcl]
+    have ff : Fin' f c := by
+      intro x y
+      rw [fden']
+      exact closure_fin w1.1 fr x y
+    refine ⟨ff, ?_, ?_, ?_⟩
+    · intro U hU hXU hsub
+      rw [closure_block w1.1 hU (fun v hv => by
+        rcases (hmem1 v).1 hv with h | h
+        · exact h ▸ hXU
+        · exact hsub v h) fr]
+      · apply matOf_congr
+        intro x _ y _
+        rw [fden']
+      · intro x y hxy
+        exact den_outside c (fun h => hxy ⟨(hmem1 x).2 (Or.inr h.1), (hmem1 y).2 (Or.inr h.2)⟩)
+    · rintro ⟨x, hx, hne⟩
+      apply cell_inf_hasInf w'
+      apply C1
+      left
+      rcases idx_cases f.vars x with ⟨h, _⟩ | ⟨_, i, hi, hxi, _⟩
+      · exact absurd hx h
+      refine ⟨i, hi, by rw [hcellf hxi hxi]; exact hne, ?_⟩
+      intro hnone
+      have h0 := evalD_eq_o_of_eval?_none hnone
+      rw [hcellf hxi hxi, fden'] at h0
+      exact closure_diag_ne_o w1.1 _ (fv ▸ hx) h0
+    · intro hdiag x y
+      have hd : ∀ i, i < f.vars.length → (Matrix.get f.mat i i).evalD c = .m := by
+        intro i hi
+        have := idx_of_get fw.1 i hi ""
+        rw [hcellf this this]
+        exact hdiag _ (getD_mem f.vars i "" hi)
+      have hfinc : ∀ i j, (Matrix.get f.mat i j).evalD c ≠ .i := by
+        intro i j hij
+        by_cases hr : i < f.vars.length ∧ j < f.vars.length
+        · have h1 := idx_of_get fw.1 i hr.1 ""
+          have h2 := idx_of_get fw.1 j hr.2 ""
+          rw [hcellf h1 h2] at hij
+          exact ff _ _ hij
+        · rw [get_out_of_range (wf_sq fw) hr, evalD_zero] at hij
+          cases hij
+      have C := C2 hd hfinc
+      by_cases hxy : x ∈ f.vars ∧ y ∈ f.vars
+      · rcases idx_cases f.vars x with ⟨h, _⟩ | ⟨_, i, hi, hxi, _⟩
+        · exact absurd hxy.1 h
+        rcases idx_cases f.vars y with ⟨h, _⟩ | ⟨_, j, hj, hyj, _⟩
+        · exact absurd hxy.2 h
+        rw [Relation.den_of_idx (r := r') (e' ▸ hxi) (e' ▸ hyj), C i j hi hj, hcellf hxi hyj]
+        have hiff : (i = f.vars.idxOf X ∧ ∃ i', i' < f.vars.length ∧ (Matrix.get f.mat i' j).evalD c = .p)
+            ↔ (x = X ∧ ∃ z ∈ f.vars, f.den c z y = .p) := by
+          constructor
+          · rintro ⟨h1, i', hi', hp⟩
+            refine ⟨?_, f.vars.getD i' "", getD_mem f.vars i' "" hi', ?_⟩
+            · rcases idx_cases f.vars X with ⟨h, _⟩ | ⟨_, k, _, hXk, _⟩
+              · exact absurd hXf h
+              rw [idxOf_eq_of_idx fw.1 hXk] at h1
+              exact (idx_eq_iff hxi hXk).1 h1
+            · rw [← hcellf (idx_of_get fw.1 i' hi' "") hyj]; exact hp
+          · rintro ⟨h1, z, hz, hp⟩
+            constructor
+            · subst h1
+              exact (idxOf_eq_of_idx fw.1 hxi).symm
+            · rcases idx_cases f.vars z with ⟨h, _⟩ | ⟨_, k, hk, hzk, _⟩
+              · exact absurd hz h
+              exact ⟨k, hk, by rw [hcellf hzk hyj]; exact hp⟩
+        by_cases hc : x = X ∧ ∃ z ∈ f.vars, f.den c z y = .p
+        · rw [if_pos (hiff.2 hc), if_pos hc]
+        · rw [if_neg (fun h => hc (hiff.1 h)), if_neg hc]
+      · rw [den_outside c (e' ▸ hxy), if_neg, den_outside c hxy]
+        rintro ⟨h1, z, _, hp⟩
+        subst h1
+        have hy : y ∉ f.vars := fun hy => hxy ⟨hXf, hy⟩
+        rw [Relation.den_of_not_mem_right hy] at hp
+        exact absurd hp (by unfold idS; split <;> simp)
+
+/-! ## rule L pointwise -/
+
+theorem lbad_iff {U : List String} (h : NF) :
+    ((List.range U.length).any fun i => SMat.get (matOf U h) i i != .m) = true ↔
+    ∃ x ∈ U, h x x ≠ .m := by
+  simp only [List.any_eq_true, List.mem_range, bne_iff_ne, ne_eq]
+  constructor
+  · rintro ⟨i, hi, hb⟩
+    unfold matOf at hb
+    rw [get_mk _ _ hi hi] at hb
+    exact ⟨_, getD_mem U i "" hi, hb⟩
+  · rintro ⟨x, hx, hb⟩
+    obtain ⟨i, hi, rfl⟩ := mem_getD_idx hx
+    refine ⟨i, hi, ?_⟩
+    unfold matOf
+    rw [get_mk _ _ hi hi]
+    exact hb
+
+theorem colp_iff {U : List String} (h : NF) (j : Nat) (hj : j < U.length) :
+    ((List.range U.length).any fun i' => SMat.get (matOf U h) i' j == .p) = true ↔
+    ∃ z ∈ U, h z (U.getD j "") = .p := by
+  simp only [List.any_eq_true, List.mem_range, beq_iff_eq]
+  constructor
+  · rintro ⟨i, hi, hb⟩
+    unfold matOf at hb
+    rw [get_mk _ _ hi hj] at hb
+    exact ⟨_, getD_mem U i "" hi, hb⟩
+  · rintro ⟨z, hz, hb⟩
+    obtain ⟨i, hi, rfl⟩ := mem_getD_idx hz
+    refine ⟨i, hi, ?_⟩
+    unfold matOf
+    rw [get_mk _ _ hi hj]
+    exact hb
+
+/-- the matrix rule L builds from the closure `s` -/
+def loopRow (n ell : Nat) (s : SMat) : SMat :=
+  (s.zipIdx).map fun (row, i) =>
+    if i == ell then
+      (row.zipIdx).map fun (v, j) =>
+        if (List.range n).any (fun i' => SMat.get s i' j == .p) then docSum v .p else v
+    else row
+
+theorem sem_loop_eq (U : List String) (X : String) (b : Cmd) (idx : Nat) (c : Choice) :
+    sem U (.loop X b) idx c =
+      match sem U b idx c with
+      | none => none
+      | some (i1, a) =>
+        if ((List.range U.length).any fun i => SMat.get (SMat.closure a) i i != .m) = true then none
+        else some (i1, loopRow U.length (Spec.idxOf U X) (SMat.closure a)) := by
+  rw [sem]
+  rfl
+
+theorem loopRow_matOf {U : List String} (hU : U.Nodup) {X : String} (hX : X ∈ U) (h : NF) :
+    loopRow U.length (Spec.idxOf U X) (matOf U h)
+      = matOf U (fun x y => if x = X ∧ ∃ z ∈ U, h z y = .p then h x y + .p else h x y) := by
+  rcases idx_cases U X with ⟨hn, _⟩ | ⟨_, k, hk, hXk, _⟩
+  · exact absurd hX hn
+  rw [idxOf_eq hXk]
+  unfold loopRow
+  apply List.ext_getElem
+  · simp [matOf, mk]
+  · intro i h1 h2
+    have hi : i < U.length := by simpa [matOf, mk] using h2
+    have hUi : U.getD i "" = X ↔ i = k := by
+      rw [← idx_getD hXk "", getD_inj hU hi hk]
+    have hrow : ∀ (g : NF) (hh : i < (matOf U g).length), (matOf U g)[i]'hh = (List.range U.length).map fun j => dn U g i j := by
+      intro g hh
+      simp [matOf, mk]
+    rw [List.getElem_map, List.getElem_zipIdx, hrow, hrow]
+    simp only [Nat.zero_add]
+    by_cases hik : i = k
+    · have : (i == k) = true := by simpa using hik
+      rw [if_pos this]
+      apply List.ext_getElem
+      · simp
+      · intro j h3 h4
+        have hj : j < U.length := by simpa using h4
+        simp only [List.getElem_map, List.getElem_zipIdx, List.getElem_range, Nat.zero_add, dn]
+        have hc := colp_iff h j hj
+        by_cases hp : ∃ z ∈ U, h z (U.getD j "") = .p
+        · rw [if_pos (hc.2 hp), if_pos ⟨hUi.2 hik, hp⟩, ← sum_documented]
+        · rw [if_neg (fun hh => hp (hc.1 hh)), if_neg (fun hh => hp hh.2)]
+    · have : (i == k) = false := by simpa using hik
+      rw [this]
+      simp only [Bool.false_eq_true, if_false]
+      apply List.map_congr_left
+      intro j _
+      simp only [dn]
+      rw [if_neg (fun hh => hik (hUi.1 hh.1))]
+
+theorem for_point {r f r' : Relation} {g g' : DG.Graph} {X : String} (wr : r.WF) (hX : X ≠ "")
+    (hfresh : X ∉ r.vars)
+    (hf : Relation.fixpoint (Relation.composition (Relation.new [X]) r) = .ok f)
+    (hl : Relation.loopCorrection f X g = .ok (r', g')) (c : Choice) (fr : Fin' r c)
+    (U : List String) (hU : U.Nodup) (hXU : X ∈ U) (hsub : ∀ v ∈ r.vars, v ∈ U)
+    (b : Cmd) (idx i1 : Nat) (c' : Choice) (hb : sem U b idx c' = some (i1, matOf U (r.den c))) :
+    (sem U (.loop X b) idx c' = none ∧ HasInf r' c) ∨
+    (sem U (.loop X b) idx c' = some (i1, matOf U (r'.den c)) ∧ Fin' r' c) := by
+  obtain ⟨w', hv, e', fw, H⟩ := for_rel wr hX hfresh hf hl
+  obtain ⟨_, hfin⟩ := H c
+  obtain ⟨ff, hcl, hbadm, hgood⟩ := hfin fr
+  have hcl' := hcl U hU hXU hsub
+  have hfU : ∀ v ∈ f.vars, v ∈ U := by
+    intro v hv'
+    rcases (hv v).1 (e' ▸ hv') with h | h
+    · exact h ▸ hXU
+    · exact hsub v h
+  rw [sem_loop_eq, hb]
+  simp only
+  rw [hcl']
+  by_cases hbad : ((List.range U.length).any fun i => SMat.get (matOf U (f.den c)) i i != .m) = true
+  · rw [if_pos hbad]
+    left
+    refine ⟨rfl, hbadm ?_⟩
+    obtain ⟨x, _, hx⟩ := (lbad_iff _).1 hbad
+    refine ⟨x, ?_, hx⟩
+    apply Classical.byContradiction
+    intro hxf
+    rw [Relation.den_of_not_mem_left hxf, idS_self] at hx
+    exact hx rfl
+  · rw [if_neg hbad]
+    right
+    have hd : ∀ x ∈ f.vars, f.den c x x = .m := by
+      intro x hx
+      apply Classical.byContradiction
+      intro hne
+      exact hbad ((lbad_iff _).2 ⟨x, hfU x hx, hne⟩)
+    have hr' := hgood hd
+    have hex : ∀ y, (∃ z ∈ U, f.den c z y = .p) ↔ (∃ z ∈ f.vars, f.den c z y = .p) := by
+      intro y
+      constructor
+      · rintro ⟨z, _, hp⟩
+        refine ⟨z, ?_, hp⟩
+        apply Classical.byContradiction
+        intro hz
+        rw [Relation.den_of_not_mem_left hz] at hp
+        exact absurd hp (by unfold idS; split <;> simp)
+      · rintro ⟨z, hz, hp⟩
+        exact ⟨z, hfU z hz, hp⟩
+    constructor
+    · rw [loopRow_matOf hU hXU (f.den c)]
+      refine congrArg (fun m => some (i1, m)) ?_
+      apply matOf_congr
+      intro x _ y _
+      rw [hr']
+      by_cases hc : x = X ∧ ∃ z ∈ f.vars, f.den c z y = .p
+      · rw [if_pos hc, if_pos ⟨hc.1, (hex y).2 hc.2⟩]
+      · rw [if_neg hc, if_neg (fun hh => hc ⟨hh.1, (hex y).1 hh.2⟩)]
+    · intro x y
+      rw [hr']
+      split
+      · exact add_ne_i (ff x y) (by decide)
+      · exact ff x y
+
+/-! ## the invariant for `.loop X b` -/
 
 theorem refG_for {q : Bool} {idx : Nat} {dg : DG.Graph} {X : String} {b : Cmd} {rb out : Analysis.Out}
     (Rb : RefG q idx dg b rb) (hX : X ≠ "") (hfresh : X ∉ b.vars)
     (h : Analysis.forFinish q X rb = .ok out) :
     RefG q idx dg (.loop X b) out := by
-  sorry
+  cases he : rb.exit with
+  | true =>
+    rw [forFinish_exit h he]
+    exact refG_exit he (fun hq => by rw [Rb.noexit hq] at he; cases he) (Rb.ghost.mono (fun t h => h.loop))
+  | false =>
+    obtain ⟨hi, r, hr, wr, vr, semr⟩ := Rb.main he
+    obtain ⟨f, r', g, g', hf, hw, ho, hoi, hcase⟩ := forFinish_inv h he hr
+    have hfr : X ∉ r.vars := fun hx => hfresh (vr X hx)
+    obtain ⟨w', hvm, _, fw, H⟩ := for_rel wr hX hfr hf hw
+    have hA : ∀ (U : List String), U.Nodup → (∀ v ∈ (Cmd.loop X b).vars, v ∈ U) →
+        ∀ (c : Choice), Valid idx (Cmd.loop X b).arity c → ∀ c', Relab idx (Cmd.loop X b).swaps c c' →
+        Agrees U idx (.loop X b) r' c c' := by
+      intro U hU hsub c hval c' hrel
+      rw [Cmd.vars] at hsub
+      rw [Cmd.arity] at hval
+      rw [Cmd.swaps] at hrel
+      have hsubb : ∀ v ∈ b.vars, v ∈ U := fun v hv => hsub v (List.mem_cons_of_mem _ hv)
+      rcases semr U hU hsubb c hval c' hrel with ⟨s, i⟩ | ⟨s, fr⟩
+      · exact Or.inl ⟨by simp only [sem, s], (H c).1 i⟩
+      · rcases for_point wr hX hfr hf hw c fr U hU (hsub X (List.mem_cons_self ..))
+          (fun v hv => hsubb v (vr v hv)) b idx _ c' s with h1 | h1
+        · exact Or.inl h1
+        · exact Or.inr (by rw [Cmd.arity]; exact h1)
+    have hmain : out.index = idx + (Cmd.loop X b).arity ∧
+        ∃ r, out.rels = [r] ∧ r.WF ∧ (∀ v ∈ r.vars, v ∈ (Cmd.loop X b).vars) ∧
+        ∀ (U : List String), U.Nodup → (∀ v ∈ (Cmd.loop X b).vars, v ∈ U) →
+        ∀ (c : Choice), Valid idx (Cmd.loop X b).arity c → ∀ c', Relab idx (Cmd.loop X b).swaps c c' →
+        Agrees U idx (.loop X b) r c c' := by
+      refine ⟨by rw [hoi, hi, Cmd.arity], r', ho, w', ?_, hA⟩
+      intro v hv
+      rw [Cmd.vars]
+      rcases (hvm v).1 hv with h | h
+      · rw [h]; exact List.mem_cons_self ..
+      · exact List.mem_cons_of_mem _ (vr v h)
+    have hg0 : Ghost (FailsAt idx (.loop X b)) dg rb.dg := Rb.ghost.mono (fun t h => h.loop)
+    rcases hcase with ⟨hq, hex, hdg⟩ | ⟨hq, hg, hfu, hex⟩
+    · exact ⟨fun _ => hex, hdg ▸ hg0, fun _ => hmain⟩
+    · refine ⟨fun hq' => (by rw [hq] at hq'; cases hq'), ?_, fun _ => hmain⟩
+      subst hg
+      obtain ⟨ts, hts, hP⟩ := Relation.loopCorrection_inserted f r' rb.dg g' X fw hw
+      refine hg0.trans ((Ghost.of_inserts hts ?_).trans (Ghost.fuse hfu))
+      intro t ht U hU hsub c hval hm c' hrel
+      exact fails_of_agrees (hA U hU hsub c hval c' hrel) (cell_inf_hasInf w' (hP t ht c hm))
 
 end Refine
 end Mwp
